@@ -78,6 +78,16 @@ func (x *Exec) bindResults(names map[string]Val, sig *types.Signature, res Val) 
 	names["result"] = res.Fs[0]
 }
 
+// trustPre: is the call label among the comma-separated call sites of `opt trust-pre=`?
+func trustPre(opt, lbl string) bool {
+	for _, t := range strings.Split(opt, ",") {
+		if t = strings.TrimSpace(t); t != "" && "call:"+t == lbl {
+			return true
+		}
+	}
+	return false
+}
+
 // aliasRenamed: contracts name parameters and named results.  When the code renames one of them, exactly one signature name is
 // not mentioned by the contract and exactly one identifier of the contract resolves to nothing: the old name then denotes the
 // renamed parameter (recorded as a note).  Anything less clear-cut is left alone and fails as an unknown identifier.
@@ -613,7 +623,7 @@ func (x *Exec) applyContract(fr *Frame, st *State, in ssa.Instruction, con *Cont
 				continue
 			}
 			f := env.evalBool(p.C.Expr).formula()
-			if fr.depth == 0 && fr.con != nil && fr.con.Opts["trust-pre"] != "" && "call:"+fr.con.Opts["trust-pre"] == lbl {
+			if fr.depth == 0 && fr.con != nil && trustPre(fr.con.Opts["trust-pre"], lbl) {
 				// opt trust-pre=Callee#k: the precondition of this one call is an assumption of the caller's contract (listed)
 				x.note("precondition " + strconv.Itoa(i) + " of " + key + " at " + lbl + " in " + x.key + " is assumed (opt trust-pre)")
 			} else {
